@@ -95,15 +95,15 @@ def _mins(f, cd, rel, pad, pur, twin, state):
         m[k + '.monotone'] = f
     m.update({'cavdp.final==windows+-panel': int(cd * 0.4), 'cavdp.zero-when-no-window-qualifies': int(cd * 0.09),
               'cavdp.in[0,CAV/g]': int(cd * 0.5), 'cavdp.monotone': int(cd * 0.5), 'cavdp.length': int(cd * 0.5),
-              'cavdp.gate-decided-exactly': int(cd * 0.09),
+              'cavdp.gate-decided-exactly': int(cd * 0.06),
               'relation.sign': rel, 'relation.scale.pow2': rel, 'relation.scale.random': rel, 'relation.zero-pad': pad,
               PURITY: pur, TWIN: twin, STATE: state})
     return m
 
 
 # about 50% of what a normal run reaches
-MIN_EVALS = {'quick': _mins(4800, 960, 8000, 1500, 40000, 100, 800),
-             'thorough': _mins(96000, 16000, 160000, 30000, 800000, 2000, 16000)}
+MIN_EVALS = {'quick': _mins(5500, 1600, 8000, 1500, 45000, 120, 900),
+             'thorough': _mins(110000, 27000, 160000, 30000, 900000, 2400, 18000)}
 
 
 def _sig(args, kwargs):
